@@ -5,7 +5,7 @@
    conversion produces when keys carry at most one marker (see Proofs/YamlFacts.v); keys with
    two markers ("~~k") are outside this domain (DESIGN, finding F14).
    [closed]: no unparsed String and no ValueList in any value position. *)
-From RV Require Import Model.Interp Proofs.WfFacts Proofs.InterpFacts Proofs.FixedPoint.
+From RV Require Import Model.Interp Proofs.WfFacts Proofs.InterpFacts Proofs.FixedPoint Proofs.RenderTwice.
 
 (** Every successful interpolation returns closed data: null, bool, number, literal string,
     list or mapping all the way down -- no reference left, no multi-layer artefact. *)
@@ -39,6 +39,22 @@ Theorem C07_fixed_point :
   forall root f r, 2 * vdepth r < f -> closed r -> wf r -> simple_keys r -> rendered f root r = Ok r.
 Proof. exact rendered_fixed_point. Qed.
 Eval cbv in "ASSUMPTIONS-OF C07_fixed_point"%string. Print Assumptions C07_fixed_point.
+
+(** End to end, with no side condition: whatever a render of well-formed parameters returns is a
+    fixed point -- rendering it again with the same fuel, against any parameters [R] and as its
+    own root, returns it unchanged. *)
+Theorem C07_rendered_parameters_are_a_fixed_point :
+  forall f root r, wf (VMap root) -> render_with_self f (VMap root) = Ok r ->
+    (forall R, rendered f R r = Ok r) /\ render_with_self f r = Ok r.
+Proof. exact render_result_is_a_fixed_point. Qed.
+Eval cbv in "ASSUMPTIONS-OF C07_rendered_parameters_are_a_fixed_point"%string. Print Assumptions C07_rendered_parameters_are_a_fixed_point.
+
+(** ... and so is every value rendered anywhere, at any state. *)
+Theorem C07_rendered_values_render_to_themselves :
+  forall f root v st w st1, wf (VMap root) -> wf v -> interp f root v st = Ok (w, st1) ->
+    forall R st2, interp f R w st2 = Ok (w, st2).
+Proof. exact rendered_value_is_a_fixed_point. Qed.
+Eval cbv in "ASSUMPTIONS-OF C07_rendered_values_render_to_themselves"%string. Print Assumptions C07_rendered_values_render_to_themselves.
 
 (** Flattening closed data is the identity (no hidden second pass changes rendered data). *)
 Theorem C07_flatten_identity_on_closed :
